@@ -171,7 +171,8 @@ fn search_mode(_obl: &str) -> Vec<Witness> {
         if let Some(w) = check_history(&[a.clone()], &format!("[{i}] = {a:?}")) { found.push(w); if found.len() >= 6 { return found; } }
         if let Ok(Some(w)) = std::panic::catch_unwind(std::panic::AssertUnwindSafe(|| check_positions(a, &format!("[{i}] = {a:?}")))) { found.push(w); if found.len() >= 6 { return found; } }
     }
-    for (i, a) in ts.iter().enumerate().step_by(7) { for (j, b) in ts.iter().enumerate().step_by(11) {
+    let (s1, s2) = if crate::util::deep() { (2, 3) } else { (7, 11) };
+    for (i, a) in ts.iter().enumerate().step_by(s1) { for (j, b) in ts.iter().enumerate().step_by(s2) {
         if let Some(w) = check_history(&[a.clone(), b.clone()], &format!("[{i},{j}] = {a:?} ; {b:?}")) { found.push(w); if found.len() >= 6 { return found; } }
     } }
     found
